@@ -247,7 +247,7 @@ func runC07(c *core.Ctx) {
 				case 3:
 					d = []byte(sg.Document(r, 3, 6, 3, nil).Markdown)
 				default:
-					d = wl.Mix(r, corpus)
+					d = mixDoc(r, corpus)
 				}
 				docs = append(docs, d)
 			}
